@@ -320,10 +320,27 @@ func (r *Report) Finish() int {
 		fmt.Printf("KNOWN-FINDING: property=%s %s %s [%s] replay %s\n", k.Property, k.ID, k.What, k.Function, st)
 	}
 
+	// a violation may be the return of a defect that was fixed: the replays of "fixed:" entries
+	// are real failing inputs for it
+	if violations > 0 {
+		for _, k := range known {
+			if k.Kind != "fixed" || k.Property != r.Prop || k.Replay == "" {
+				continue
+			}
+			if failed, _ := runReplayFile(r.L, filepath.Join(r.VerifDir, k.Replay)); failed {
+				vioLines = append(vioLines, fmt.Sprintf("VIOLATION property=%s replay=%s (regression of fixed defect %s: the replay fails on the real code)", r.Prop, filepath.Join(r.VerifDir, k.Replay), k.ID))
+			}
+		}
+	}
 	var sweepCov map[string]any
 	if r.Sweep == "determinism" {
 		var sv int
 		sv, sweepCov = r.runSweep(r.AllowFile)
+		violations += sv
+	}
+	if r.Sweep == "lockdiscipline" {
+		var sv int
+		sv, sweepCov = r.runLockCheck(r.AllowFile)
 		violations += sv
 	}
 	for _, l := range vioLines {
@@ -414,25 +431,58 @@ func (r *Report) Finish() int {
 	return 0
 }
 
-// renamedUnclaimed: a new refuted obligation whose function has an unclaimed ("u") obligation of
-// the same kind that this run did not generate is most likely that obligation under a new name
-// (its name contains the source text of the line); it stays unclaimed.
+// renamedUnclaimed: a new refuted obligation may be an unclaimed ("u") obligation of the same
+// function and kind under a new name (names contain the source text of the line). Every "u" entry
+// that this run did not generate is matched with the most similar new refuted obligation; only
+// the matched ones stay unclaimed, the others are new failures.
 func (r *Report) renamedUnclaimed(lock map[string]string, v *Verdict) bool {
-	kind := v.Obl.Name
-	if i := strings.Index(kind, "["); i >= 0 {
-		kind = kind[:i]
-	}
-	have := map[string]bool{}
-	for _, w := range r.Verdicts {
-		have[lockKey(r.Tags, w.Obl.Name)] = true
-	}
-	pre := r.Tags + "\t" + kind + "["
-	for k, cls := range lock {
-		if cls == "u" && strings.HasPrefix(k, pre) && !have[k] {
-			return true
+	if r.renamed == nil {
+		r.renamed = map[string]bool{}
+		have := map[string]bool{}
+		for _, w := range r.Verdicts {
+			have[lockKey(r.Tags, w.Obl.Name)] = true
+		}
+		// candidates: new refuted obligations, grouped by function#kind
+		kindOf := func(name string) string {
+			if i := strings.Index(name, "["); i >= 0 {
+				return name[:i]
+			}
+			return name
+		}
+		cands := map[string][]string{}
+		for _, w := range r.Verdicts {
+			if w.Status == "refuted" && lock[lockKey(r.Tags, w.Obl.Name)] == "" {
+				cands[kindOf(w.Obl.Name)] = append(cands[kindOf(w.Obl.Name)], w.Obl.Name)
+			}
+		}
+		for k, cls := range lock {
+			if cls != "u" || !strings.HasPrefix(k, r.Tags+"\t") || have[k] {
+				continue
+			}
+			old := strings.TrimPrefix(k, r.Tags+"\t")
+			best, bestScore := "", -1
+			for _, c := range cands[kindOf(old)] {
+				if r.renamed[c] {
+					continue
+				}
+				if sc := commonPrefix(old, c); sc > bestScore {
+					best, bestScore = c, sc
+				}
+			}
+			if best != "" {
+				r.renamed[best] = true
+			}
 		}
 	}
-	return false
+	return r.renamed[v.Obl.Name]
+}
+
+func commonPrefix(a, b string) int {
+	n := 0
+	for n < len(a) && n < len(b) && a[n] == b[n] {
+		n++
+	}
+	return n
 }
 
 func round2(x float64) float64 { return float64(int(x*100+0.5)) / 100 }
